@@ -8,7 +8,7 @@ open Gobptree
 
 variable {K V : Type}
 
-theorem keepOf_held (H : List Lk) (n x : Nat) (h : Lk.node x ∈ H) : keepOf H n x = false := by
+theorem keepOf_heldD (H : List Lk) (n x : Nat) (h : Lk.node x ∈ H) : keepOf H n x = false := by
   simp [keepOf, h]
 
 theorem cursorOk_of_closed (t : Tree K V) (cur : Option (Option Nat × Int)) (h : cursorLocks cur = []) :
@@ -55,7 +55,7 @@ theorem resume_post_D (P : Params K) (t : Nat) (s : St K V) (k : Kont K V) (H : 
     (hcov : Covers H s.cursor k) :
     Post H (flowHole (resume P t s k).2) s (resume P t s k).1 (resume P t s k).2 := by
   have hcur : cursorLocks s.cursor = [] := closed_of_kontPre hd hkp
-  have hkeep : ∀ x, Lk.node x ∈ H → keepOf H s.tree.nextId x = false := fun x hx => keepOf_held H _ x hx
+  have hkeep : ∀ x, Lk.node x ∈ H → keepOf H s.tree.nextId x = false := fun x hx => keepOf_heldD H _ x hx
   obtain ⟨hheld, hlock, _⟩ := hcov
   cases k with
   | roTree _ _ => simp [isDelK] at hd
